@@ -3,7 +3,7 @@ Writer meets reader: the directory a world history leaves (`DiskOK`) is a listin
 the collector proofs (`WFInput`), each contribution being one cell of one identity's file.
 -/
 import PromVerif.Lemmas.MultiprocessCompose
-import PromVerif.Lemmas.MultiprocessDisk
+import PromVerif.Lemmas.MultiprocessPresence
 
 namespace PromVerif.Props.C08
 open PromVerif.Py PromVerif.Generated.Multiprocess
@@ -120,6 +120,30 @@ theorem contrib_char (PS : List Params) (hPS : ∀ q ∈ PS, GoodParams q) (disk
     rw [AL.getD_eq, hd, Option.getD_some]
     exact AL.get?_of_mem f.2 hs.1 e.1 e.2 he
 
+/-- conversely, every existing entry of a well-formed file is a contribution the collector reads -/
+theorem contrib_of_cell (PS : List Params) (hPS : ∀ q ∈ PS, GoodParams q) (disk : List (Str × Store V))
+    (h : DiskOK PS disk) (q : Params) (hq : q ∈ PS) (p : Str) (hp : '_' ∉ p)
+    (hs : has disk (fileName (filePrefix q) p) (mmapKey q) = true) :
+    ∃ c ∈ allContribs (sfiles disk), c.key = mmapKey q ∧ c.pid = p ∧ c.typ = q.typ ∧ (q.typ = gaugeType → c.mode = q.mode) := by
+  unfold has cellGet at hs
+  cases hg : AL.get? disk (fileName (filePrefix q) p) with
+  | none => rw [AL.getD_eq, hg] at hs; simp at hs
+  | some store =>
+    rw [AL.getD_eq, hg, Option.getD_some] at hs
+    obtain ⟨vt, hvt⟩ := Option.isSome_iff_exists.mp hs
+    have hf := AL.mem_of_get? _ _ _ hg
+    have he := AL.mem_of_get? _ _ _ hvt
+    have hparse := parseName_fileName q (hPS q hq) p hp
+    refine ⟨⟨q.typ, if q.typ = gaugeType then q.mode else [], p, mmapKey q, vt.1, vt.2⟩, ?_, rfl, rfl, rfl, ?_⟩
+    · unfold allContribs sfiles
+      apply List.mem_flatMap.mpr
+      refine ⟨sfileOf (fileName (filePrefix q) p, store), List.mem_map.mpr ⟨_, hf, rfl⟩, ?_⟩
+      unfold contribsOf
+      apply List.mem_map.mpr
+      refine ⟨(mmapKey q, vt), he, ?_⟩
+      simp only [sfileOf, hparse]
+    · intro hg'; simp [hg']
+
 /-- what the worker side must guarantee about the parameters of the value objects it constructs -/
 structure GoodPS (bo : BOps B) (PS : List Params) : Prop where
   good : ∀ q ∈ PS, GoodParams q
@@ -132,7 +156,11 @@ structure GoodPS (bo : BOps B) (PS : List Params) : Prop where
 theorem wfinput_sfiles (bo : BOps B) (PS : List Params) (hPS : GoodPS bo PS) (disk : List (Str × Store V))
     (h : DiskOK PS disk) : WFInput bo (sfiles disk) := by
   have hch := contrib_char PS hPS.good disk h
-  refine ⟨?_, ?_, ?_, ?_, ?_, ?_⟩
+  refine ⟨?_, ?_, ?_, ?_, ?_, ?_, ?_⟩
+  rotate_right
+  · intro c hc
+    obtain ⟨q, _, _, _, k1, _, _⟩ := hch c hc
+    rw [k1]; exact mmapKey_labels_nodup q
   · intro sf hsf
     obtain ⟨f, hf, rfl⟩ := List.mem_map.mp hsf
     obtain ⟨q, hq, pid, hp, hn, _⟩ := h.files f hf
